@@ -22,11 +22,13 @@ use runner::Property;
 static ALLOC: track::Tracking = track::Tracking;
 
 /// One-time process set-up for workers and replays.
-pub fn init_process() {
+pub fn init_process(with_sim: bool) {
     runner::install_panic_hook();
     track::register_static_image();
-    sim::install();
-    interp::warmup();
+    if with_sim {
+        sim::install();
+        interp::warmup();
+    }
 }
 
 macro_rules! dispatch {
@@ -49,6 +51,7 @@ macro_rules! dispatch {
             "C06" => $f::<props::hist::C06>($($arg),*),
             "C09" => $f::<props::hist::C09>($($arg),*),
             "C05" => $f::<props::c05::C05>($($arg),*),
+            "C13" => $f::<props::c13::C13>($($arg),*),
             other => {
                 eprintln!("unknown property {other}");
                 2
